@@ -1,12 +1,14 @@
 #!/bin/bash
 # usage: validate_mutants.sh <out-file> <prop:k> ...   (validates sub-agent mutants in a scratch worktree, runs our checks on them)
 OUT=$1; shift
-WV=/tmp/wv
+WV=/tmp/wv${LANE}
 WTP=${WTPREFIX:-/tmp/wt-}
 export PYTHONPATH_DEMO=$WV
 # run our checks from a frozen copy of /verif so that live edits do not disturb the validation
-SNAP=/tmp/vsnap
-rm -rf $SNAP; rsync -a --exclude .git --exclude .scratch --exclude replays /verif/ $SNAP/
+SNAP=${SNAP:-/tmp/vsnap${LANE}}
+OWN_SNAP=1
+[ -d "$SNAP/pyvc" ] && OWN_SNAP=0
+[ $OWN_SNAP = 1 ] && { rm -rf $SNAP; rsync -a --exclude .git --exclude .scratch --exclude replays /verif/ $SNAP/; }
 git -C /repo worktree remove --force $WV 2>/dev/null; rm -rf $WV
 git -C /repo worktree add -q --detach $WV HEAD || exit 1
 demo() { # prop k
@@ -15,15 +17,15 @@ demo() { # prop k
   export PYTHONPATH=$WV
   if grep -q "def test_" _out/demo$k.py; then
     if [ "$p" = "C10" ] && [ -z "$WTPREFIX" ]; then
-      cp _out/demo$k.py asimap/test/test_demo_$k.py; timeout 900 /venv/bin/python -m pytest -q -p no:cacheprovider --timeout=300 asimap/test/test_demo_$k.py >/tmp/demo.log 2>&1; rc=$?; rm -f asimap/test/test_demo_$k.py; return $rc
+      cp _out/demo$k.py asimap/test/test_demo_$k.py; timeout 900 /venv/bin/python -m pytest -q -p no:cacheprovider --timeout=300 asimap/test/test_demo_$k.py >/tmp/demo${LANE}.log 2>&1; rc=$?; rm -f asimap/test/test_demo_$k.py; return $rc
     fi
     if grep -q "asimap.test.conftest" _out/demo$k.py || [ "$p" = "C15" ]; then
-      timeout 900 /venv/bin/python -m pytest -q -p no:cacheprovider --timeout=900 -p asimap.test.conftest _out/demo$k.py >/tmp/demo.log 2>&1
+      timeout 900 /venv/bin/python -m pytest -q -p no:cacheprovider --timeout=900 -p asimap.test.conftest _out/demo$k.py >/tmp/demo${LANE}.log 2>&1
     else
-      timeout 900 /venv/bin/python -m pytest -q -p no:cacheprovider --timeout=900 _out/demo$k.py >/tmp/demo.log 2>&1
+      timeout 900 /venv/bin/python -m pytest -q -p no:cacheprovider --timeout=900 _out/demo$k.py >/tmp/demo${LANE}.log 2>&1
     fi
   else
-    timeout 600 /venv/bin/python _out/demo$k.py >/tmp/demo.log 2>&1
+    timeout 600 /venv/bin/python _out/demo$k.py >/tmp/demo${LANE}.log 2>&1
   fi
 }
 for pk in "$@"; do
@@ -31,7 +33,7 @@ for pk in "$@"; do
   cd $WV && git checkout -q -- . && rm -rf _out && cp -r ${WTP}$p/_out _out
   echo "=== $p mutant$k" >> $OUT
   if ! git apply _out/mutant$k.diff 2>>$OUT; then echo "APPLY-FAILED" >> $OUT; continue; fi
-  demo $p $k; echo "demo-with-mutant rc=$? ($(tail -1 /tmp/demo.log | cut -c1-100))" >> $OUT
+  demo $p $k; echo "demo-with-mutant rc=$? ($(tail -1 /tmp/demo${LANE}.log | cut -c1-100))" >> $OUT
   (cd $SNAP && .venv/bin/python bin/baseline_check.py $WV 2>&1 | head -3 | tr '\n' ' ') >> $OUT; echo >> $OUT
   for c in ${CHECKS:-$p}; do
     (cd $SNAP && PYVC_REPO=$WV ./check $c 2>&1 | grep -E "VIOLATION|HELD|UNDECIDED|CHECKER" | cut -c1-160 | sed "s/^/  check $c: /") >> $OUT
@@ -39,5 +41,5 @@ for pk in "$@"; do
   cd $WV && git checkout -q -- . 
   demo $p $k; echo "demo-clean rc=$?" >> $OUT
 done
-cd / ; git -C /repo worktree remove --force $WV; rm -rf $WV $SNAP
+cd / ; git -C /repo worktree remove --force $WV; rm -rf $WV; [ $OWN_SNAP = 1 ] && rm -rf $SNAP
 echo DONE >> $OUT
